@@ -186,8 +186,8 @@ pub fn run(r: &mut Report, ctx: &Ctx) {
         let count = short_string_count(4, maxlen);
         r.section(
             "generator-ops",
-            "allocator calls (alloc, dealloc, realloc, alloc_zeroed) counted on the calling thread while armed around each of new, update (piece rotation), processed_len, finalize_with_options (all 32 settings), finalize, clone, drop: must be 0; inputs = every string over {00,41,7f,ff} up to the bound, five streams up to 600 bytes in piece rotations {1}, {0,1,2,3,5,8}, {64,7}, {1000}; every variant; non-trivial = all",
-            &format!("{count} strings + 5 streams x 4 rotations x 12 lengths, x 5 variants"),
+            "allocator calls (alloc, dealloc, realloc, alloc_zeroed) counted on the calling thread while armed around each of new, update (piece rotation), processed_len, finalize_with_options (all 32 settings), finalize, clone, drop: must be 0; inputs = every string over {00,41,7f,ff} up to the bound, six streams up to 600 bytes in piece rotations {1}, {0,1,2,3,5,8}, {64,7}, {1000}; every variant; non-trivial = all",
+            &format!("{count} strings + 6 streams x 4 rotations x 12 lengths, x 5 variants"),
             true,
             |s| {
                 let streams = Stream::all(ctx.seed);
@@ -202,9 +202,10 @@ pub fn run(r: &mut Report, ctx: &Ctx) {
                         (short_string(&alpha, k), &[3, 1, 4])
                     } else {
                         let e = (k - count) as usize;
-                        let st = streams[e % 5];
-                        let rot = rotations[(e / 5) % 4];
-                        (st.bytes(0, lens[e / 20]), rot)
+                        let ns = streams.len();
+                        let st = streams[e % ns];
+                        let rot = rotations[(e / ns) % 4];
+                        (st.bytes(0, lens[e / (ns * 4)]), rot)
                     };
                     acc.evals += 1;
                     acc.transitions += 40;
